@@ -40,11 +40,17 @@ Proof. intros c H. unfold is_ws in H. by_members H. Qed.
 Lemma bsl_not_ws : is_ws c_bsl = false.
 Proof. reflexivity. Qed.
 
+Lemma bsl_not_space : is_space_sep c_bsl = false.
+Proof. reflexivity. Qed.
+
+(* the blanks (spaces, tabs) behind the written regex are trimmed, the regex is not — whatever its
+   last character is, as long as it is not an unescaped blank or a lone backslash *)
 Lemma trim_end_unescaped_printed : forall p w blanks,
-  prefix_end_ok p -> re_trim_ok w = true -> forallb is_ws blanks = true ->
+  prefix_end_ok p -> re_trim_ok w = true -> forallb is_space_sep blanks = true ->
   trim_end_unescaped (p ++ w ++ blanks) = Done (p ++ w).
 Proof.
-  intros p w blanks Hp Hw Hb. rewrite trim_end_unescaped_spec. f_equal. unfold trim_end_unescaped_ref.
+  intros p w blanks Hp Hw Hb. rewrite trim_end_unescaped_spec. f_equal.
+  unfold trim_end_unescaped_ref, trim_end_unescaped_ref_gen.
   unfold re_trim_ok in Hw.
   destruct (rev w) as [|c r] eqn:Er.
   - (* w = [] *)
@@ -52,26 +58,27 @@ Proof.
     simpl. rewrite app_nil_r.
     destruct Hp as [->|[p' [x [-> [Hx Hx']]]]].
     + simpl. rewrite trim_end_all_ws by exact Hb. reflexivity.
-    + rewrite trim_end_snoc by assumption. rewrite count_bsl_snoc_other by exact Hx'. reflexivity.
+    + rewrite trim_end_snoc; [|apply not_ws_not_space; exact Hx|exact Hb].
+      rewrite count_bsl_snoc_other by exact Hx'. reflexivity.
   - assert (w = rev r ++ [c]) as -> by (rewrite <- (rev_involutive w), Er; reflexivity).
     set (w' := rev r) in *.
     assert (Hk : count_trailing_bsl (p ++ w') = length (take_while (N.eqb c_bsl) r)).
     { rewrite count_bsl_behind by exact Hp. unfold w'. rewrite rev_involutive. reflexivity. }
-    destruct (is_ws c) eqn:Ec.
+    destruct (is_space_sep c) eqn:Ec.
     + (* escaped blank *)
       cbn [orb] in Hw.
       destruct r as [|d r'] eqn:Er'; [simpl in Hw; discriminate|].
       cbn [take_while] in Hw. destruct (c_bsl =? d)%N eqn:Ed; [|simpl in Hw; discriminate].
       apply N.eqb_eq in Ed. subst d.
       assert (Hw' : w' = rev r' ++ [c_bsl]) by (unfold w'; reflexivity).
-      assert (Ht : trim_end is_ws (p ++ (w' ++ [c]) ++ blanks) = p ++ w').
+      assert (Ht : trim_end is_space_sep (p ++ (w' ++ [c]) ++ blanks) = p ++ w').
       { rewrite Hw'. replace (p ++ ((rev r' ++ [c_bsl]) ++ [c]) ++ blanks)
           with (((p ++ rev r') ++ [c_bsl]) ++ (c :: blanks)) by (rewrite <- !app_assoc; reflexivity).
         rewrite trim_end_snoc; [rewrite <- app_assoc; reflexivity|reflexivity|simpl; rewrite Ec; exact Hb]. }
       rewrite Ht, Hk. cbn [take_while]. rewrite N.eqb_refl. rewrite Hw.
       replace (p ++ (w' ++ [c]) ++ blanks) with ((p ++ w') ++ c :: blanks) by (rewrite <- !app_assoc; reflexivity).
       rewrite skipn_app_length. simpl. rewrite <- app_assoc. reflexivity.
-    + assert (Ht : trim_end is_ws (p ++ (w' ++ [c]) ++ blanks) = p ++ w' ++ [c]).
+    + assert (Ht : trim_end is_space_sep (p ++ (w' ++ [c]) ++ blanks) = p ++ w' ++ [c]).
       { replace (p ++ (w' ++ [c]) ++ blanks) with (((p ++ w') ++ [c]) ++ blanks) by (rewrite <- !app_assoc; reflexivity).
         rewrite trim_end_snoc by assumption. rewrite <- app_assoc. reflexivity. }
       rewrite Ht. cbn [orb] in Hw.
@@ -240,7 +247,7 @@ Proof.
   rewrite quoted_is_quoted, Hb.
   destruct (2 + byte_len m <=? 2) eqn:E; [apply Nat.leb_le in E; lia|]. cbn [orb negb].
   rewrite slice_app; [|cbn [byte_len]; lia|cbn [byte_len]; lia].
-  cbn [lift rbind]. cbn [fix_target_span repaired]. do 3 f_equal; lia.
+  cbn [lift rbind]. cbn [fix_target_span repaired mk_fixes]. do 3 f_equal; lia.
 Qed.
 
 Lemma flip_neq : forall k l, forallb (fun x => negb (x =? k)%N) l = true ->
@@ -407,7 +414,7 @@ Lemma parse_start_states_printed : forall pe iw st i names pads pre re,
 Proof.
   intros pe iw st i names pads pre re Hv Hst Hin Hp Hre. unfold parse_start_states.
   destruct pre as [|n ns].
-  - cbn [print_prefix app]. rewrite (Hre eq_refl). cbn [negb]. cbn [fix_dangling fix_iw repaired andb].
+  - cbn [print_prefix app]. rewrite (Hre eq_refl). cbn [negb]. cbn [fix_dangling fix_iw fix_esc_table repaired mk_fixes andb unescape_sel].
     rewrite unescape_iw_spec. reflexivity.
   - destruct (pre_pieces_facts c_gt names (n :: ns) pads eq_refl eq_refl Hv Hin Hp) as [G1 _].
     destruct (pre_pieces_facts c_comma names (n :: ns) pads eq_refl eq_refl Hv Hin Hp) as [C1 [_ C3]].
@@ -428,7 +435,7 @@ Proof.
     rewrite (states_by_name_numbered st names i (n :: ns) Hst Hin). cbn [rbind].
     replace ([c_lt] ++ join_comma pieces ++ c_gt :: re) with ((c_lt :: join_comma pieces ++ [c_gt]) ++ re)
       by (cbn [app]; rewrite <- app_assoc; reflexivity).
-    rewrite slice_from_app' by (blen; lia). cbn [lift rbind]. cbn [fix_prefix_unescape fix_dangling fix_iw repaired andb].
+    rewrite slice_from_app' by (blen; lia). cbn [lift rbind]. cbn [fix_prefix_unescape fix_dangling fix_iw fix_esc_table repaired mk_fixes andb unescape_sel].
     rewrite unescape_iw_spec. reflexivity.
 Qed.
 (* ---- one rule line ------------------------------------------------------------------------------------ *)
@@ -478,7 +485,7 @@ Proof.
     rewrite <- !app_assoc. cbn [app]. rewrite <- !app_assoc. reflexivity. }
   assert (Hlinenl : no_nl (print_rline rl r) = true).
   { rewrite Hline. unfold body, A. repeat apply no_nl_app; try assumption.
-    - apply all_iws_no_nl. exact Hblanks.
+    - apply all_iws_no_nl. revert Hblanks. apply forallb_imp. exact space_sep_iws.
     - change (rl_sp rl :: T ++ NM) with ([rl_sp rl] ++ T ++ NM). repeat apply no_nl_app; try assumption.
       unfold no_nl. cbn [forallb]. rewrite (space_sep_not_nl _ Hsp). reflexivity.
     - apply all_iws_no_nl. exact Htrail. }
@@ -500,8 +507,8 @@ Proof.
   (* the regex field *)
   assert (Hre0 : slice_to body (byte_len A) = Done A).
   { unfold body. apply slice_to_app. }
-  assert (Hre1 : trim_end_unescaped A = Done (P ++ a_re r)).
-  { unfold A. apply trim_end_unescaped_printed; [exact HPend|exact Htrim|apply all_iws_ws; exact Hblanks]. }
+  assert (Hre1 : trim_end_unescaped_gen (trim_pred (fix_trim_blank repaired)) A = Done (P ++ a_re r)).
+  { unfold A. apply trim_end_unescaped_printed; [exact HPend|exact Htrim|exact Hblanks]. }
   assert (Hps : parse_start_states pe iw repaired st i (P ++ a_re r) =
                 ROk (map (fun n => index_of n names) (a_pre r), map_escapes iw pe (a_re r))).
   { unfold P. apply parse_start_states_printed; assumption. }
